@@ -129,6 +129,11 @@ func parseCodeDirectory(blob []byte, itype uint32) (*CodeDirectory, error) {
 	// read hash slots
 	hashBase := int(hdr.HashOffset)
 	hashLen := int(hdr.HashSize)
+	// special slots are before hashBase and code slots after, all within the blob
+	if int64(hdr.SpecialSlotCount)*int64(hashLen) > int64(hashBase) ||
+		int64(hashBase)+int64(hdr.CodeSlotCount)*int64(hashLen) > int64(len(blob)) {
+		return nil, errShort
+	}
 	slot := func(i int) []byte {
 		hash := blob[hashBase+i*hashLen : hashBase+(i+1)*hashLen]
 		for _, c := range hash {
